@@ -449,6 +449,8 @@ def gen_cases(rng, tier):
             enc_items.append(("enc-version-out", rng.randbytes(20), v, net))
     for net in ("signet", "", "Mainnet", "main", "bc"):
         enc_items.append(("enc-network-unknown", rng.randbytes(20), 0, net))
+    # in-domain triples first, so that the first reported disagreements are failing inputs of the property itself
+    enc_items.sort(key=lambda e: not e[0].startswith("enc-ok"))
     single = enc_items if T else [e for i, e in enumerate(enc_items) if i % 3 == 0 or not e[0].startswith("enc-ok")]
     for (cls, d, v, net) in single:
         out.append(case(cls, "segwit_addr", d, v, net, strict=True))
@@ -488,7 +490,7 @@ def gen_cases(rng, tier):
             uniq.append((cls, s))
     # single-string cases: every class gets them (bounded per class in the quick tier), the volume goes in batches
     per_class = {}
-    limit = 10 ** 9 if T else 40
+    limit = 120 if T else 40
     light = {"verpos-byte", "verpos-rechecksum", "non-ascii-everywhere", "bad-char-everywhere"}
     for cls, s in uniq:
         k = per_class.get(cls, 0)
@@ -870,6 +872,10 @@ def extra_checks(ctx):
         if len(out) >= 3:
             break
     ctx["stats"].setdefault("extra", {})["literal_property_evaluations"] = n
+    if ctx["tier"] == "thorough":
+        # every 1- and 2-character substitution (over the 32-character table; 1-substitutions also over
+        # separator/excluded/upper-case/non-ASCII characters) of the shortest addresses was enumerated
+        ctx["stats"]["exhaustive"] = True
     return out
 
 
